@@ -8,6 +8,7 @@ package adssim
 
 import (
 	"crypto/sha256"
+	"errors"
 	"fmt"
 	"math/bits"
 	"sort"
@@ -74,7 +75,17 @@ func keyFromBytes(b []byte) (key, int, error) {
 	return key{b[0], b[1]}, 2, nil
 }
 
-func valToBytes(v val) ([]byte, error) { return []byte(v), nil }
+// refused is a value the value codec turns down: a Set with it fails and, like every failed call, changes nothing.
+const refused = val("\xffrefused")
+
+var errRefused = errors.New("value codec refuses this value")
+
+func valToBytes(v val) ([]byte, error) {
+	if v == refused {
+		return nil, errRefused
+	}
+	return []byte(v), nil
+}
 
 func valFromBytes(b []byte) (val, int, error) { return val(b), len(b), nil }
 
@@ -722,6 +733,17 @@ func body(s *simrt.Sim, f *flavour) {
 		switch s.Weighted(mixes[mix][:]...) {
 		case opPut:
 			ki := pick()
+			if !f.isSet && s.Choose(8) == 7 {
+				// a Set the value codec refuses: the error is reported, contents, size and root are what they were
+				err := w.in.put(universe[ki], refused)
+				s.Logf("put %s=<refused value> -> %v", label(ki), err)
+				s.Fault("value-codec-refuses")
+				if err == nil {
+					s.Fail("error", w.sig("set", "refused-value-accepted"), "Set(%s, v) returned nil although the value codec refused v", label(ki))
+				}
+				w.audit("model", "main")
+				continue
+			}
 			w.put(ki, int8(s.Choose(len(f.values))))
 		case opDelete:
 			w.del(pick())
